@@ -33,6 +33,15 @@ int sim_close(int fd);
 int sim_dup(int fd);
 off_t sim_lseek(int fd, off_t off, int whence);
 int sim_fcntl(int fd, int cmd, ...);
+int simfd_conn_id(int task, int fd);
+int simfd_conn_role(int task, int fd);
+uint64_t simfd_tx_total(int task, int fd);
+uint64_t simfd_rx_total(int task, int fd);
+int simfd_nonblocking(int task, int fd);
+size_t simfd_conn_txlog(int cid, int role, const unsigned char **p);
+extern uint64_t simfd_progress;
+extern int simfd_hard_error_t[];
+#define simfd_hard_error (simfd_hard_error_t[task_current()])
 int simfs_is_fd(int fd);
 int simfs_close(int fd);
 #endif
